@@ -395,7 +395,7 @@ def _make_fields_iterator(
         ]
     # Otherwise, try using the public type-hints.
     else:
-        attribs = inspection.get_type_hints(tp)
+        attribs = inspection.get_type_hints(tp, exhaustive=False)
         public_attribs = [k for k in attribs if not k.startswith("_")]
     # If that didn't work, look for `__slots__`.
     if not public_attribs and hasattr(tp, "__slots__"):
